@@ -156,15 +156,13 @@ Qed.
 Lemma A_commit_skip s ds : A s ds -> A (commit_skip s) ds.
 Proof.
   intros HA. unfold commit_skip.
-  assert (HC : A (mkB (do_commit (base s) 0) (finf s ++ new_infos (pending (base s)) (pinf s)) []
-                      (mkBat (bopts (bat s)) (wal_size (bat s)) (wal_skip (bat s)) 0)
-                      (mkIdx None (lex (ix s)) [] false (venabled (ix s)) (zero_manifest (vtoc (ix s))) (vidx (ix s)))) ds).
-  { destruct HA as [HJ HI HP HF]. constructor; cbn [base finf pinf].
+  assert (HC : forall t x, A (mkB (do_commit (base s) 0) (finf s ++ new_infos (pending (base s)) (pinf s)) [] t x) ds).
+  { intros t x. destruct HA as [HJ HI HP HF]. constructor; cbn [base finf pinf].
     - apply J_commit. exact HJ.
     - cbn [do_commit pending new_infos]. rewrite app_nil_r. exact HI.
     - reflexivity.
     - cbn [do_commit committed]. rewrite HI, (J_view _ _ HJ), len_ref. reflexivity. }
-  destruct (pending (base s)) eqn:Ep; [destruct (dirty (base s))|]; try exact HA; exact HC.
+  destruct (pending (base s)) eqn:Ep; [destruct (dirty (base s))|]; try exact HA; apply HC.
 Qed.
 
 Lemma A_finalize s ds e : A s ds -> A (finalize s e) ds.
@@ -248,14 +246,14 @@ Proof. destruct g; cbn; auto. Qed.
 
 (* settled: nothing but lex records pending, engine flushed *)
 Definition Settled (s : bst) : Prop :=
-  tdirty (ix s) = false /\ lex_disk (ix s) = lex (ix s) /\ delta_nonempty (pending (base s)) = false.
+  tdirty (ix s) = false /\ lex_disk (ix s) = lex (ix s) /\ delta_nonempty (pending (base s)) = false /\ tix (ix s) <> None.
 
 Lemma commit_full_no_frame s e :
   delta_nonempty (pending (base s)) = false -> tdirty (ix s) = false ->
   ix (commit_full s e) = ix s /\ finf (commit_full s e) = finf s /\ pending (base (commit_full s e)) = [] /\
   committed (base (commit_full s e)) = committed (base s).
 Proof.
-  intros HD HT. unfold commit_full. cbn [ix finf base]. rewrite (new_infos_no_frame _ _ HD), HD, HT. cbn [length inserted_ids seq map filter orb].
+  intros HD HT. unfold commit_full. cbn [ix finf base]. rewrite (new_infos_no_frame _ _ HD), HD. cbn [vec_from nonempty_docs andb]. rewrite HT. cbn [length inserted_ids seq map filter orb].
   rewrite !app_nil_r. unfold flush. cbn [tdirty]. cbn [do_commit pending committed]. rewrite (view_no_frame _ HD).
   repeat split. destruct (ix s); cbn in *; subst; reflexivity.
 Qed.
@@ -267,7 +265,7 @@ Lemma reopen_settled s e : Settled s ->
   committed (base s') = committed (base s) /\ delta_nonempty (pending (base s')) = false /\
   vtoc (ix s') = vtoc (ix s) /\ vidx (ix s') = index_of (vtoc (ix s)) /\ venabled (ix s') = is_some (vtoc (ix s)).
 Proof.
-  intros (HT & HL & HD). cbn [bstep fst].
+  intros (HT & HL & HD & HX). cbn [bstep fst].
   set (s1 := if dirty (base s) then commit_full s e else set_base s (bump (base s) e)).
   assert (H1 : ix s1 = ix s /\ finf s1 = finf s /\ committed (base s1) = committed (base s) /\ delta_nonempty (pending (base s1)) = false).
   { subst s1. destruct (dirty (base s)).
@@ -285,7 +283,7 @@ Proof.
     destruct (commit_full_no_frame s2 0) as (a & b & c & d); [rewrite Ep; exact HD2|exact HT2|].
     rewrite a, b, c, d. auto. }
   destruct HR as (R1 & R2 & R3 & R4). rewrite R1, R2, R3, R4.
-  subst s2. cbn [ix finf base tix lex vtoc vidx venabled]. rewrite I1, F1, C1, HL. auto 10.
+  subst s2. cbn [ix finf base tix lex vtoc vidx venabled]. rewrite I1, F1, C1. destruct (tix (ix s)) eqn:Et; [|contradiction]. rewrite HL. auto 10.
 Qed.
 
 Theorem finalize_lexical ops e g :
@@ -304,7 +302,7 @@ Proof.
   split; [exact (J_view _ _ (A_J _ _ HA'))|].
   split; [rewrite GF; exact HF|].
   unfold timeline_ids, Settled. rewrite GI, GB. cbn [finalize ix base pending]. rewrite R1, R2, R3, R4, HC, HF.
-  repeat split. rewrite delta_nonempty_app, HD, lex_recs_no_frame. reflexivity.
+  repeat split; try discriminate. rewrite delta_nonempty_app, HD, lex_recs_no_frame. reflexivity.
 Qed.
 
 Theorem finalize_lexical_reopened ops e g e2 :
@@ -372,68 +370,85 @@ Proof.
   intros HA HL. apply filter_true. intros x Hx. apply vec_from_bound in Hx. apply active_in_range; [exact HA|lia].
 Qed.
 
-(* ------------------------------------------------------------------ invariant F: histories without commit_skip_indexes *)
-Record F (s : bst) : Prop := mkF {
-  F_fr : tdirty (ix s) = false ->
+(* ------------------------------------------------------------------ invariant F *)
+(* w = inside the window between commit_skip_indexes and the next finalize_indexes: there the
+   persisted indexes (F_fr, F_v2) are stale by design; everything else holds always *)
+Record F (w : bool) (s : bst) : Prop := mkF {
+  F_fr : w = false -> tdirty (ix s) = false ->
          (tix (ix s) = Some (tix_full (committed (base s)) (finf s)) \/ (tix (ix s) = None /\ committed (base s) = [])) /\
          lex (ix s) = lex_full (committed (base s)) (finf s) /\ lex_disk (ix s) = lex (ix s);
   F_td : tdirty (ix s) = true -> delta_nonempty (pending (base s)) = true;
   F_d : delta_nonempty (pending (base s)) = true -> dirty (base s) = true;
-  F_v1 : docs_of (vidx (ix s)) = vec_full (finf s);
-  F_v2 : index_of (vtoc (ix s)) = vidx (ix s);
+  F_v1 : docs_of (vidx (ix s)) = vec_full (finf s);                       (* the in-memory index is complete *)
+  F_v2 : w = false -> index_of (vtoc (ix s)) = vidx (ix s);               (* ... and persisted *)
   F_v3 : venabled (ix s) = is_some (vtoc (ix s));
   F_v4 : venabled (ix s) = false -> forallb noemb (pinf s) = true;
+  F_v5 : venabled (ix s) = false -> vidx (ix s) = None /\ vtoc (ix s) = None;
+  F_v6 : vidx (ix s) = None -> index_of (vtoc (ix s)) = None;
   F_act : AllActive (committed (base s)) }.
 
-Lemma F_bst0 : F bst0.
+Lemma F_bst0 : F false bst0.
 Proof. constructor; cbn; try reflexivity; try discriminate; auto. constructor. Qed.
 
-Lemma disabled_empty s : F s -> venabled (ix s) = false -> vidx (ix s) = None /\ vtoc (ix s) = None /\ vec_full (finf s) = [].
+Lemma F_weaken w s : F w s -> F true s.
+Proof. intros [a b c d e f g h i j]. constructor; try assumption; intros Hw; discriminate Hw. Qed.
+
+Lemma disabled_empty w s : F w s -> venabled (ix s) = false -> vidx (ix s) = None /\ vtoc (ix s) = None /\ vec_full (finf s) = [].
 Proof.
-  intros HF HE. pose proof (F_v3 _ HF) as H3. rewrite HE in H3. destruct (vtoc (ix s)) eqn:Ev; [discriminate|].
-  pose proof (F_v2 _ HF) as H2. rewrite Ev in H2. cbn in H2. pose proof (F_v1 _ HF) as H1. rewrite <- H2 in H1. cbn in H1. auto.
+  intros HF HE. destruct (F_v5 _ _ HF HE) as (H1 & H2). pose proof (F_v1 _ _ HF) as H3. rewrite H1 in H3. cbn in H3. auto.
 Qed.
 
-Lemma F_commit_full s ds e : A s ds -> F s -> F (commit_full s e).
+Lemma nonempty_docs_false d : nonempty_docs d = false -> d = [].
+Proof. destruct d; [reflexivity|discriminate]. Qed.
+
+(* commit_from_records re-establishes the persisted indexes whenever it applies a frame record,
+   whatever the window state; otherwise it leaves the indexes alone *)
+Lemma F_commit_full w s ds e : A s ds -> F w s -> F w (commit_full s e).
 Proof.
   intros HA HF. pose proof (J_view _ _ (A_J _ _ HA)) as HV.
   pose proof (A_inf _ _ HA) as HI. pose proof (A_lf _ _ HA) as HLF.
   assert (HLen : (length (finf s) <= length (ref_table ds))%nat).
   { rewrite len_ref, <- HI, app_length. lia. }
   unfold commit_full. set (recs := pending (base s)) in *. set (ni := new_infos recs (pinf s)) in *.
+  assert (HN0 : len (committed (base s)) = 0 + N.of_nat (length (finf s))) by (unfold len; rewrite HLF; lia).
+  (* the replay enabling never fires here: a disabled index has no embedding pending *)
+  assert (HX : (if nonempty_docs (vec_from (len (committed (base s))) ni) && negb (venabled (ix s)) then enable (ix s) else ix s) = ix s).
+  { destruct (venabled (ix s)) eqn:HE; [rewrite andb_false_r; reflexivity|].
+    rewrite (vec_from_noemb ni _ (new_infos_noemb recs _ (F_v4 _ _ HF HE))). reflexivity. }
+  rewrite HX.
   destruct (delta_nonempty recs) eqn:HD.
   - (* rebuild *)
     rewrite orb_true_r. unfold rebuild. cbn [tdirty venabled vidx lex].
-    assert (HN0 : len (committed (base s)) = 0 + N.of_nat (length (finf s))) by (unfold len; rewrite HLF; lia).
     destruct (venabled (ix s)) eqn:HE; cbn [build_vec_artifact].
     + constructor; cbn [ix base finf pinf tix lex lex_disk tdirty venabled vtoc vidx do_commit committed pending docs_of index_of is_some]; try reflexivity; try discriminate; auto.
-      * rewrite (F_v1 _ HF), HV. rewrite (filter_active_vec _ _ (ref_table_active ds) HLen).
+      * rewrite (F_v1 _ _ HF), HV. rewrite (filter_active_vec _ _ (ref_table_active ds) HLen).
         unfold vec_full. rewrite vec_from_app, HN0. reflexivity.
       * rewrite HV. apply ref_table_active.
-    + destruct (disabled_empty s HF HE) as (V1 & V2 & V3).
+    + destruct (disabled_empty _ s HF HE) as (V1 & V2 & V3).
       constructor; cbn [ix base finf pinf tix lex lex_disk tdirty venabled vtoc vidx do_commit committed pending docs_of index_of is_some]; try reflexivity; try discriminate; auto.
-      * unfold vec_full in *. rewrite vec_from_app, V3. cbn [app]. symmetry. apply vec_from_noemb. apply new_infos_noemb. exact (F_v4 _ HF HE).
+      * unfold vec_full in *. rewrite vec_from_app, V3. cbn [app]. symmetry. apply vec_from_noemb. apply new_infos_noemb. exact (F_v4 _ _ HF HE).
       * rewrite HV. apply ref_table_active.
   - (* nothing but lex records *)
     assert (HT : tdirty (ix s) = false).
-    { destruct (tdirty (ix s)) eqn:E; [|reflexivity]. pose proof (F_td _ HF E) as H. fold recs in H. congruence. }
+    { destruct (tdirty (ix s)) eqn:E; [|reflexivity]. pose proof (F_td _ _ HF E) as H. fold recs in H. congruence. }
     assert (Hni : ni = []) by (apply new_infos_no_frame; exact HD).
     rewrite HT, Hni. cbn [length inserted_ids seq map filter orb]. rewrite !app_nil_r. unfold flush. cbn [tdirty].
     pose proof (view_no_frame _ HD) as HVC.
-    destruct (F_fr _ HF HT) as (T1 & T2 & T3).
     constructor; cbn [ix base finf pinf tix lex lex_disk tdirty venabled vtoc vidx do_commit committed pending]; try reflexivity; try discriminate.
-    + intros _. rewrite HVC. auto.
-    + exact (F_v1 _ HF).
-    + exact (F_v2 _ HF).
-    + exact (F_v3 _ HF).
-    + rewrite HVC. exact (F_act _ HF).
+    + intros Hw _. rewrite HVC. exact (F_fr _ _ HF Hw HT).
+    + exact (F_v1 _ _ HF).
+    + exact (F_v2 _ _ HF).
+    + exact (F_v3 _ _ HF).
+    + exact (F_v5 _ _ HF).
+    + exact (F_v6 _ _ HF).
+    + rewrite HVC. exact (F_act _ _ HF).
 Qed.
 
-Lemma F_ext s s' : committed (base s') = committed (base s) -> pending (base s') = pending (base s) ->
-  dirty (base s') = dirty (base s) -> finf s' = finf s -> pinf s' = pinf s -> ix s' = ix s -> F s -> F s'.
-Proof. intros H1 H2 H3 H4 H5 H6 [a b c d e f g h]. constructor; rewrite ?H1, ?H2, ?H3, ?H4, ?H5, ?H6; assumption. Qed.
+Lemma F_ext w s s' : committed (base s') = committed (base s) -> pending (base s') = pending (base s) ->
+  dirty (base s') = dirty (base s) -> finf s' = finf s -> pinf s' = pinf s -> ix s' = ix s -> F w s -> F w s'.
+Proof. intros H1 H2 H3 H4 H5 H6 [a b c d e f g h i j]. constructor; rewrite ?H1, ?H2, ?H3, ?H4, ?H5, ?H6; assumption. Qed.
 
-Lemma doc_infos_noemb d : d_emb d = None -> forallb noemb (doc_infos d) = true.
+Lemma doc_infos_noemb d : eff_emb (d_emb d) = None -> forallb noemb (doc_infos d) = true.
 Proof.
   intros H. unfold doc_infos. cbn [forallb]. unfold noemb at 1. cbn [i_emb]. rewrite H. cbn [is_some negb andb].
   apply forallb_forall. intros x Hx. apply in_map_iff in Hx as (j & Hj & _). subst x. reflexivity.
@@ -445,127 +460,196 @@ Proof.
   unfold delta_nonempty. cbn [existsb snd]. destruct e; try discriminate. reflexivity.
 Qed.
 
-Lemma F_put_append s ds d : A s ds -> F s -> doc_ok d = true -> F (fst (put_append s d)).
+Lemma F_put_append w s ds d : A s ds -> F w s -> F w (fst (put_append s d)).
 Proof.
-  intros HA HF Hok. unfold put_append.
+  intros HA HF. unfold put_append.
   destruct (put_base_spec (base s) (d_uri d) (d_tag d) (d_nchunks d)) as (E & P & C & D & L & FI).
   destruct (sstep (base s) (OPut (d_uri d) (d_tag d) (d_nchunks d) 0 None)) as [b1 o]. cbn [fst snd] in *.
   assert (HDN : delta_nonempty (pending b1) = true).
   { rewrite P, delta_nonempty_app, (delta_nonempty_inserts E FI), orb_true_r; [reflexivity|lia]. }
-  pose proof (F_act _ HF) as HAct. rewrite <- C in HAct.
+  pose proof (F_act _ _ HF) as HAct. rewrite <- C in HAct.
   destruct (venabled (ix s)) eqn:HE.
   - (* already enabled *)
     rewrite andb_false_r.
     destruct (d_instant d); constructor; cbn [ix base finf pinf tdirty tix lex lex_disk vidx vtoc venabled]; rewrite ?C;
-      first [ exact (F_v1 _ HF) | exact (F_v2 _ HF) | exact (F_v3 _ HF) | exact HAct | exact (F_act _ HF)
-            | (intros HT; exact (F_fr _ HF HT)) | (intros HT; discriminate HT) | (intros _; exact HDN) | (intros _; exact D)
+      first [ exact (F_v1 _ _ HF) | exact (F_v2 _ _ HF) | exact (F_v3 _ _ HF) | exact (F_v6 _ _ HF) | exact HAct | exact (F_act _ _ HF)
+            | (intros Hw HT; exact (F_fr _ _ HF Hw HT)) | (intros _ HT; discriminate HT) | (intros _; exact HDN) | (intros _; exact D)
             | (intros HX; congruence) ].
-  - destruct (disabled_empty s HF HE) as (V1 & V2 & V3). rewrite andb_true_r.
+  - destruct (disabled_empty _ s HF HE) as (V1 & V2 & V3). rewrite andb_true_r.
     destruct (incoming_dimension (d_emb d) None) eqn:Een.
     + (* enable_vec *)
       rewrite V2.
       destruct (d_instant d); constructor; cbn [ix base finf pinf tdirty tix lex lex_disk vidx vtoc venabled index_of is_some]; rewrite ?C;
-        first [ exact (F_v1 _ HF) | (symmetry; exact V1) | reflexivity | exact HAct | exact (F_act _ HF)
-              | (intros HT; exact (F_fr _ HF HT)) | (intros HT; discriminate HT) | (intros _; exact HDN) | (intros _; exact D) ].
-    + assert (Hemb : d_emb d = None).
-      { unfold doc_ok in Hok. destruct (d_emb d) as [v|]; [|reflexivity]. unfold incoming_dimension in Een. rewrite Hok in Een. discriminate Een. }
+        first [ exact (F_v1 _ _ HF) | (intros _; symmetry; exact V1) | reflexivity | exact HAct | exact (F_act _ _ HF)
+              | (intros Hw HT; exact (F_fr _ _ HF Hw HT)) | (intros _ HT; discriminate HT) | (intros HT; discriminate HT)
+              | (intros _; exact HDN) | (intros _; exact D) | (intros _; reflexivity) ].
+    + assert (Hemb : eff_emb (d_emb d) = None).
+      { destruct (d_emb d) as [[|a l]|]; try reflexivity. cbn in Een. discriminate Een. }
       assert (HP4 : forallb noemb (pinf s ++ doc_infos d) = true).
-      { rewrite forallb_app, (F_v4 _ HF HE), (doc_infos_noemb d Hemb). reflexivity. }
+      { rewrite forallb_app, (F_v4 _ _ HF HE), (doc_infos_noemb d Hemb). reflexivity. }
       destruct (d_instant d); constructor; cbn [ix base finf pinf tdirty tix lex lex_disk vidx vtoc venabled]; rewrite ?C;
-        first [ exact (F_v1 _ HF) | exact (F_v2 _ HF) | exact (F_v3 _ HF) | exact HAct | exact (F_act _ HF)
-              | (intros HT; exact (F_fr _ HF HT)) | (intros HT; discriminate HT) | (intros _; exact HDN) | (intros _; exact D)
+        first [ exact (F_v1 _ _ HF) | exact (F_v2 _ _ HF) | exact (F_v3 _ _ HF) | exact (F_v5 _ _ HF) | exact (F_v6 _ _ HF) | exact HAct | exact (F_act _ _ HF)
+              | (intros Hw HT; exact (F_fr _ _ HF Hw HT)) | (intros _ HT; discriminate HT) | (intros _; exact HDN) | (intros _; exact D)
               | (intros _; exact HP4) ].
 Qed.
 
-Lemma F_grow s g : F s -> F (grow s g).
-Proof. intros HF. destruct g; [|exact HF]. apply (F_ext s); auto. Qed.
+Lemma F_grow w s g : F w s -> F w (grow s g).
+Proof. intros HF. destruct g; [|exact HF]. apply (F_ext w s); auto. Qed.
 
-Lemma F_finalize s ds e : A s ds -> F s -> F (finalize s e).
+(* finalize_indexes closes the window: whatever w was, the result satisfies F false *)
+Lemma F_finalize w s ds e : A s ds -> F w s -> F false (finalize s e).
 Proof.
   intros HA HF. unfold finalize. pose proof (A_lf _ _ HA) as HLF.
   destruct (rebuild_empty (ix s) (committed (base s)) (finf s)) as (R1 & R2 & R3 & R4).
   assert (HV : let y := rebuild (ix s) (committed (base s)) (finf s) [] [] in
-               docs_of (vidx y) = vec_full (finf s) /\ index_of (vtoc y) = vidx y /\ venabled y = is_some (vtoc y) /\ venabled y = venabled (ix s)).
+               docs_of (vidx y) = vec_full (finf s) /\ index_of (vtoc y) = vidx y /\ venabled y = is_some (vtoc y) /\ venabled y = venabled (ix s) /\
+               (venabled y = false -> vidx y = None /\ vtoc y = None) /\ (vidx y = None -> index_of (vtoc y) = None)).
   { unfold rebuild. destruct (venabled (ix s)) eqn:HE; cbn [build_vec_artifact].
-    - destruct (tdirty (ix s)); cbn; rewrite app_nil_r, (F_v1 _ HF), filter_active_vec; auto using F_act; lia.
-    - destruct (disabled_empty s HF HE) as (V1 & V2 & V3). destruct (tdirty (ix s)); cbn; rewrite V3; auto. }
-  destruct HV as (W1 & W2 & W3 & W4).
+    - pose proof (F_act _ _ HF) as HAc.
+      destruct (tdirty (ix s)); cbn; rewrite app_nil_r, (F_v1 _ _ HF), filter_active_vec; auto; try lia;
+        repeat split; auto; discriminate.
+    - destruct (disabled_empty _ s HF HE) as (V1 & V2 & V3). destruct (tdirty (ix s)); cbn; rewrite V3; auto 10. }
+  destruct HV as (W1 & W2 & W3 & W4 & W5 & W6).
   constructor; cbn [ix base finf pinf committed pending dirty].
-  - intros _. rewrite R1, R2, R3. auto.
+  - intros _ _. rewrite R1, R2, R3. auto.
   - rewrite R4. discriminate.
-  - rewrite delta_nonempty_app, lex_recs_no_frame, orb_false_r. exact (F_d _ HF).
+  - rewrite delta_nonempty_app, lex_recs_no_frame, orb_false_r. exact (F_d _ _ HF).
   - exact W1.
-  - exact W2.
+  - intros _. exact W2.
   - exact W3.
-  - rewrite W4. intros HE. rewrite forallb_app, (F_v4 _ HF HE). apply forallb_forall. intros x Hx. apply repeat_spec in Hx. subst x. reflexivity.
-  - exact (F_act _ HF).
+  - rewrite W4. intros HE. rewrite forallb_app, (F_v4 _ _ HF HE). apply forallb_forall. intros x Hx. apply repeat_spec in Hx. subst x. reflexivity.
+  - exact W5.
+  - exact W6.
+  - exact (F_act _ _ HF).
 Qed.
 
-Lemma F_tdirty_false s : F s -> delta_nonempty (pending (base s)) = false -> tdirty (ix s) = false.
-Proof. intros HF HD. destruct (tdirty (ix s)) eqn:E; [|reflexivity]. pose proof (F_td _ HF E). congruence. Qed.
-
-Lemma F_step s ds op : A s ds -> F s -> is_skip op = false -> op_ok op = true -> F (fst (bstep s op)).
+(* commit_skip_indexes opens the window; the in-memory vector index stays complete (fix ed861c9) *)
+Lemma F_commit_skip w s ds : A s ds -> F w s -> F true (commit_skip s).
 Proof.
-  intros HA HF Hs Hok. destruct op as [d auto g|o| |e g| |e g|e]; cbn [bstep fst]; try discriminate.
-  - pose proof (A_put_append (grow s g) ds d (A_grow _ _ g HA)) as A1.
-    pose proof (F_put_append (grow s g) ds d (A_grow _ _ g HA) (F_grow _ g HF) Hok) as F1.
+  intros HA HF. unfold commit_skip.
+  pose proof (J_view _ _ (A_J _ _ HA)) as HV.
+  pose proof (A_inf _ _ HA) as HI. pose proof (A_lf _ _ HA) as HLF.
+  assert (HLen : (length (finf s) <= length (ref_table ds))%nat).
+  { rewrite len_ref, <- HI, app_length. lia. }
+  assert (HN0 : len (committed (base s)) = 0 + N.of_nat (length (finf s))) by (unfold len; rewrite HLF; lia).
+  set (ni := new_infos (pending (base s)) (pinf s)) in *.
+  set (newd := vec_from (len (committed (base s))) ni).
+  assert (HC : F true (mkB (do_commit (base s) 0) (finf s ++ ni) [] (mkBat (bopts (bat s)) (wal_size (bat s)) (wal_skip (bat s)) 0)
+                 (mkIdx None (lex (ix s)) [] false (venabled (ix s)) (zero_manifest (vtoc (ix s)))
+                    (if nonempty_docs newd && venabled (ix s)
+                     then match build_vec_artifact (venabled (ix s)) (view (base s))
+                                  (match vidx (ix s) with Some d => Some d | None => index_of (vtoc (ix s)) end) newd with
+                          | Some d => Some d
+                          | None => match vidx (ix s) with Some d => Some d | None => index_of (vtoc (ix s)) end
+                          end
+                     else vidx (ix s))))).
+  { assert (Hcur : docs_of (match vidx (ix s) with Some d => Some d | None => index_of (vtoc (ix s)) end) = vec_full (finf s)).
+    { rewrite <- (F_v1 _ _ HF). destruct (vidx (ix s)) eqn:Ev; [reflexivity|]. rewrite (F_v6 _ _ HF Ev). reflexivity. }
+    assert (Hfull : vec_full (finf s ++ ni) = vec_full (finf s) ++ newd).
+    { unfold vec_full, newd. rewrite vec_from_app, HN0. reflexivity. }
+    constructor; cbn [ix base finf pinf tix lex lex_disk tdirty venabled vtoc vidx do_commit committed pending]; try discriminate; try reflexivity.
+    - (* F_v1 *)
+      rewrite Hfull. destruct (venabled (ix s)) eqn:HE.
+      + destruct (nonempty_docs newd) eqn:Hn; cbn [andb build_vec_artifact docs_of].
+        * rewrite Hcur, HV, (filter_active_vec _ _ (ref_table_active ds) HLen). reflexivity.
+        * rewrite (nonempty_docs_false _ Hn), app_nil_r. exact (F_v1 _ _ HF).
+      + rewrite andb_false_r. assert (Hn : newd = []) by (apply vec_from_noemb, new_infos_noemb, (F_v4 _ _ HF HE)).
+        rewrite Hn, app_nil_r. exact (F_v1 _ _ HF).
+    - (* F_v3 *) rewrite (F_v3 _ _ HF). destruct (vtoc (ix s)); reflexivity.
+    - (* F_v5 *) intros HE. rewrite HE, andb_false_r. destruct (F_v5 _ _ HF HE) as (H1 & H2). rewrite H1, H2. auto.
+    - (* F_v6 *) intros _. destruct (vtoc (ix s)); reflexivity.
+    - (* F_act *) rewrite HV. apply ref_table_active. }
+  destruct (pending (base s)) eqn:Ep; [destruct (dirty (base s))|]; try exact (F_weaken _ _ HF); exact HC.
+Qed.
+
+Lemma F_tdirty_false w s : F w s -> delta_nonempty (pending (base s)) = false -> tdirty (ix s) = false.
+Proof. intros HF HD. destruct (tdirty (ix s)) eqn:E; [|reflexivity]. pose proof (F_td _ _ HF E). congruence. Qed.
+
+(* the window after one op; None = close + reopen inside the window *)
+Definition wnext (w : bool) (op : bop) : option bool :=
+  match op with
+  | BSkip => Some true
+  | BFinalize _ _ => Some false
+  | BReopen _ => if w then None else Some false
+  | _ => Some w
+  end.
+
+Lemma scan_cons w op r : scan w (op :: r) = match wnext w op with Some w' => scan w' r | None => None end.
+Proof. destruct op; cbn [scan wnext]; try reflexivity. destruct w; reflexivity. Qed.
+
+Lemma F_step w w' s ds op : A s ds -> F w s -> wnext w op = Some w' -> F w' (fst (bstep s op)).
+Proof.
+  intros HA HF Hw. destruct op as [d auto g|o| |e g| |e g|e]; cbn [bstep fst]; cbn [wnext] in Hw.
+  - injection Hw as <-.
+    pose proof (A_put_append (grow s g) ds d (A_grow _ _ g HA)) as A1.
+    pose proof (F_put_append w (grow s g) ds d (A_grow _ _ g HA) (F_grow _ _ g HF)) as F1.
     destruct (put_append (grow s g) d) as [s1 r]. cbn [fst] in *.
-    destruct auto as [extra|]; [destruct (suppress s)|]; cbn [fst]; try exact F1. apply (F_commit_full _ _ _ A1 F1).
-  - apply (F_ext s); auto.
-  - apply (F_ext s); auto.
-  - apply F_grow.
-    destruct (pending (base s)) eqn:Ep; [destruct (dirty (base s)) eqn:Ed|]; try (apply (F_commit_full _ _ _ HA HF)).
-    destruct (tdirty (ix s)); [apply (F_commit_full _ _ _ HA HF)|]. apply (F_ext s); auto.
-  - apply F_grow. apply (F_finalize _ _ _ HA HF).
-  - set (s1 := if dirty (base s) then commit_full s e else set_base s (bump (base s) e)).
+    destruct auto as [extra|]; [destruct (suppress s)|]; cbn [fst]; try exact F1. apply (F_commit_full _ _ _ _ A1 F1).
+  - injection Hw as <-. apply (F_ext w s); auto.
+  - injection Hw as <-. apply (F_ext w s); auto.
+  - injection Hw as <-. apply F_grow.
+    destruct (pending (base s)) eqn:Ep; [destruct (dirty (base s)) eqn:Ed|]; try (apply (F_commit_full _ _ _ _ HA HF)).
+    destruct (tdirty (ix s)); [apply (F_commit_full _ _ _ _ HA HF)|]. apply (F_ext w s); auto.
+  - injection Hw as <-. apply (F_commit_skip _ _ _ HA HF).
+  - injection Hw as <-. apply F_grow. apply (F_finalize _ _ _ _ HA HF).
+  - destruct w; [discriminate|]. injection Hw as <-.
+    set (s1 := if dirty (base s) then commit_full s e else set_base s (bump (base s) e)).
     assert (A1 : A s1 ds).
-    { pose proof (A_step s ds (BCommit e None) HA) as H. subst s1. destruct (dirty (base s)); [apply A_commit_full; exact HA|].
+    { subst s1. destruct (dirty (base s)); [apply A_commit_full; exact HA|].
       destruct HA as [HJ HI HP HLF]. constructor; cbn [set_base base finf pinf bump pending committed]; assumption. }
-    assert (F1 : F s1).
-    { subst s1. destruct (dirty (base s)); [apply (F_commit_full _ _ _ HA HF)|apply (F_ext s); auto]. }
+    assert (F1 : F false s1).
+    { subst s1. destruct (dirty (base s)); [apply (F_commit_full _ _ _ _ HA HF)|apply (F_ext false s); auto]. }
     assert (T1 : tdirty (ix s1) = false).
     { subst s1. destruct (dirty (base s)) eqn:Ed.
-      - apply (F_tdirty_false _ F1). reflexivity.
-      - apply (F_tdirty_false _ F1). cbn [set_base base bump pending].
-        destruct (delta_nonempty (pending (base s))) eqn:E; [|reflexivity]. pose proof (F_d _ HF E). congruence. }
-    destruct (F_fr _ F1 T1) as (_ & _ & L1).
-    match goal with |- F (match pending (base ?t) with [] => _ | _ => _ end) => set (s2 := t) end.
+      - apply (F_tdirty_false _ _ F1). reflexivity.
+      - apply (F_tdirty_false _ _ F1). cbn [set_base base bump pending].
+        destruct (delta_nonempty (pending (base s))) eqn:E; [|reflexivity]. pose proof (F_d _ _ HF E). congruence. }
+    destruct (F_fr _ _ F1 eq_refl T1) as (_ & L0 & L1).
+    match goal with |- F false (match pending (base ?t) with [] => _ | _ => _ end) => set (s2 := t) end.
     assert (I2 : ix s2 = ix s1).
-    { subst s2. cbn [ix]. pose proof (F_v3 _ F1) as V3. pose proof (F_v2 _ F1) as V2. revert L1 T1 V2 V3.
-      destruct (ix s1) as [a b c d0 e0 f g]. cbn. intros. subst. reflexivity. }
-    assert (F2 : F s2) by (apply (F_ext s1); auto).
+    { subst s2. cbn [ix]. pose proof (F_v3 _ _ F1) as V3. pose proof (F_v2 _ _ F1 eq_refl) as V2. revert L0 L1 T1 V2 V3.
+      generalize (lex_full (committed (base s1)) (finf s1)). intros lf.
+      destruct (ix s1) as [a b c d0 e0 f g]. cbn. intros. subst. destruct a; reflexivity. }
+    assert (F2 : F false s2) by (apply (F_ext false s1); auto).
     assert (A2 : A s2 ds) by (apply (A_ext s1); auto).
-    destruct (pending (base s2)); [exact F2|apply (F_commit_full _ _ _ A2 F2)].
+    destruct (pending (base s2)); [exact F2|apply (F_commit_full _ _ _ _ A2 F2)].
 Qed.
 
-Lemma AF_run ops : forall s ds, A s ds -> F s -> existsb is_skip ops = false -> forallb op_ok ops = true ->
-  F (fst (brun s ops)).
+Lemma AF_run ops : forall w w' s ds, A s ds -> F w s -> scan w ops = Some w' -> F w' (fst (brun s ops)).
 Proof.
-  induction ops as [|op ops IH]; intros s ds HA HF Hs Hok; cbn [brun]; [exact HF|].
-  cbn [existsb forallb] in Hs, Hok. apply orb_false_iff in Hs as [Hs1 Hs2]. apply andb_true_iff in Hok as [Ho1 Ho2].
-  pose proof (A_step s ds op HA) as A1. pose proof (F_step s ds op HA HF Hs1 Ho1) as F1.
-  destruct (bstep s op) as [s1 o]. cbn [fst] in *. specialize (IH s1 _ A1 F1 Hs2 Ho2).
+  induction ops as [|op ops IH]; intros w w' s ds HA HF Hs; cbn [brun]; [cbn in Hs; injection Hs as <-; exact HF|].
+  rewrite scan_cons in Hs. destruct (wnext w op) as [w1|] eqn:Ew; [|discriminate].
+  pose proof (A_step s ds op HA) as A1. pose proof (F_step w w1 s ds op HA HF Ew) as F1.
+  destruct (bstep s op) as [s1 o]. cbn [fst] in *. specialize (IH w1 w' s1 _ A1 F1 Hs).
   destruct (brun s1 ops) as [s2 os]. exact IH.
 Qed.
 
-(* every history without commit_skip_indexes, once nothing but lex records is pending, shows
-   exactly what plain puts of its documents show *)
-Theorem noskip_view ops :
-  existsb is_skip ops = false -> forallb op_ok ops = true ->
+(* MAIN: every history over the whole alphabet -- puts, begin_batch / end_batch, commit,
+   commit_skip_indexes, finalize_indexes, close + reopen -- that does not close the memory between a
+   commit_skip_indexes and the following finalize_indexes, once it is outside that window and only lex
+   records are pending, shows exactly what plain puts of its documents show: frames, content tags,
+   timestamps, timeline, engine documents AND vector documents *)
+Theorem bulk_view ops :
+  scan false ops = Some false ->
   delta_nonempty (pending (base (bfinal ops))) = false ->
   bview (bfinal ops) = spec_view (docs_of_ops ops).
 Proof.
-  intros Hs Hok HD. pose proof (A_final ops) as HA. pose proof (AF_run ops bst0 [] A_bst0 F_bst0 Hs Hok) as HF.
+  intros Hs HD. pose proof (A_final ops) as HA. pose proof (AF_run ops false false bst0 [] A_bst0 F_bst0 Hs) as HF.
   fold (bfinal ops) in HF. set (s := bfinal ops) in *. set (ds := docs_of_ops ops) in *.
   destruct (A_quiescent s ds HA HD) as (HV & HC & HI).
-  pose proof (F_tdirty_false _ HF HD) as HT. destruct (F_fr _ HF HT) as (T1 & T2 & _).
-  unfold bview, spec_view. rewrite HV, HI, T2, HC, HI, (F_v1 _ HF), HI.
+  pose proof (F_tdirty_false _ _ HF HD) as HT. destruct (F_fr _ _ HF eq_refl HT) as (T1 & T2 & _).
+  unfold bview, spec_view. rewrite HV, HI, T2, HC, HI, (F_v1 _ _ HF), HI.
   assert (HTL : timeline_ids s = map snd (tix_full (ref_table ds) (ref_infos ds))).
   { unfold timeline_ids. destruct T1 as [T1|[T1 T1']].
     - rewrite T1, HC, HI. reflexivity.
     - rewrite T1, T1'. rewrite <- HC, T1'. reflexivity. }
   rewrite HTL. reflexivity.
 Qed.
+
+(* inside the window the in-memory vector index is already complete (what live search_vec scans) *)
+Theorem vector_live_any_window ops w :
+  scan false ops = Some w -> vec_full (finf (bfinal ops)) = docs_of (vidx (ix (bfinal ops))).
+Proof. intros Hs. symmetry. exact (F_v1 _ _ (AF_run ops false w bst0 [] A_bst0 F_bst0 Hs)). Qed.
 
 (* ------------------------------------------------------------------ the paths of the property *)
 Lemma bfinal_snoc l op : bfinal (l ++ [op]) = fst (bstep (bfinal l) op).
@@ -579,36 +663,57 @@ Proof.
   destruct (pending (base s)) eqn:Ep; [destruct (dirty (base s)); [reflexivity|destruct (tdirty (ix s)); [reflexivity|cbn; exact Ep]]|reflexivity].
 Qed.
 
-Lemma put_ops_facts xs :
-  existsb is_skip (put_ops xs) = false /\ forallb op_ok (put_ops xs) = forallb doc_ok (map pd_doc xs) /\
-  docs_of_ops (put_ops xs) = map pd_doc xs.
+Lemma skip_pending_nil s : pending (base (fst (bstep s BSkip))) = [].
 Proof.
-  induction xs as [|[[d a] g] xs (I1 & I2 & I3)]; [repeat split|].
-  cbn [put_ops map existsb forallb is_skip orb op_ok pd_doc fst snd]. fold (put_ops xs).
-  split; [exact I1|]. split; [rewrite I2; reflexivity|]. change (docs_of_ops (BPut d a g :: put_ops xs)) with (d :: docs_of_ops (put_ops xs)). rewrite I3. reflexivity.
+  cbn [bstep fst]. unfold commit_skip.
+  destruct (pending (base s)) eqn:Ep; [destruct (dirty (base s)); [reflexivity|exact Ep]|reflexivity].
 Qed.
 
-Lemma plain_path_view xs e g :
-  forallb doc_ok (map pd_doc xs) = true -> bview (bfinal (plain_path xs e g)) = spec_view (map pd_doc xs).
+Lemma reopen_pending_nil s e : pending (base (fst (bstep s (BReopen e)))) = [].
 Proof.
-  intros Hok. destruct (put_ops_facts xs) as (P1 & P2 & P3). unfold plain_path.
+  cbn [bstep fst].
+  match goal with |- context [match pending (base ?t) with [] => _ | _ => _ end] => destruct (pending (base t)) eqn:Ep end; [exact Ep|reflexivity].
+Qed.
+
+Lemma finalize_no_frame s e g : delta_nonempty (pending (base s)) = false ->
+  delta_nonempty (pending (base (fst (bstep s (BFinalize e g))))) = false.
+Proof.
+  intros HD. cbn [bstep fst]. destruct (grow_ix (finalize s e) g) as (_ & GB & _). rewrite GB.
+  cbn [finalize base pending]. rewrite delta_nonempty_app, HD, lex_recs_no_frame. reflexivity.
+Qed.
+
+(* scan over op lists without skip / finalize / reopen *)
+Definition plain_op (op : bop) : bool := match op with BSkip | BFinalize _ _ | BReopen _ => false | _ => true end.
+Lemma scan_plain l : forall w r, forallb plain_op l = true -> scan w (l ++ r) = scan w r.
+Proof.
+  induction l as [|op l IH]; intros w r H; [reflexivity|]. cbn [forallb] in H. apply andb_true_iff in H as [H1 H2].
+  cbn [app]. destruct op; try discriminate; cbn [scan]; apply IH; exact H2.
+Qed.
+
+Lemma put_ops_facts xs : forallb plain_op (put_ops xs) = true /\ docs_of_ops (put_ops xs) = map pd_doc xs.
+Proof.
+  induction xs as [|[[d a] g] xs (I1 & I3)]; [split; reflexivity|].
+  cbn [put_ops map forallb plain_op andb pd_doc fst snd]. fold (put_ops xs).
+  split; [exact I1|]. change (docs_of_ops (BPut d a g :: put_ops xs)) with (d :: docs_of_ops (put_ops xs)). rewrite I3. reflexivity.
+Qed.
+
+Lemma plain_path_view xs e g : bview (bfinal (plain_path xs e g)) = spec_view (map pd_doc xs).
+Proof.
+  destruct (put_ops_facts xs) as (P1 & P3). unfold plain_path.
   assert (HDo : docs_of_ops (put_ops xs ++ [BCommit e g]) = map pd_doc xs) by (rewrite docs_of_ops_app, P3; cbn; apply app_nil_r).
-  rewrite <- HDo. apply noskip_view.
-  - rewrite existsb_app, P1. reflexivity.
-  - rewrite forallb_app, P2, Hok. reflexivity.
+  rewrite <- HDo. apply bulk_view.
+  - rewrite (scan_plain _ _ _ P1). reflexivity.
   - rewrite bfinal_snoc, commit_pending_nil. reflexivity.
 Qed.
 
-Lemma batch_path_view o xs ef e g :
-  forallb doc_ok (map pd_doc xs) = true -> bview (bfinal (batch_path o xs ef e g)) = spec_view (map pd_doc xs).
+Lemma batch_path_view o xs ef e g : bview (bfinal (batch_path o xs ef e g)) = spec_view (map pd_doc xs).
 Proof.
-  intros Hok. destruct (put_ops_facts xs) as (P1 & P2 & P3). unfold batch_path.
+  destruct (put_ops_facts xs) as (P1 & P3). unfold batch_path.
   set (tail := if ef then [BEnd; BCommit e g] else [BCommit e g; BEnd]).
   assert (HDo : docs_of_ops (BBegin o :: put_ops xs ++ tail) = map pd_doc xs).
   { change (BBegin o :: put_ops xs ++ tail) with ([BBegin o] ++ put_ops xs ++ tail). rewrite !docs_of_ops_app, P3. subst tail. destruct ef; cbn; apply app_nil_r. }
-  rewrite <- HDo. apply noskip_view.
-  - cbn [existsb is_skip orb]. rewrite existsb_app, P1. subst tail. destruct ef; reflexivity.
-  - cbn [forallb op_ok andb]. rewrite forallb_app, P2, Hok. subst tail. destruct ef; reflexivity.
+  rewrite <- HDo. apply bulk_view.
+  - cbn [scan]. rewrite (scan_plain _ _ _ P1). subst tail. destruct ef; reflexivity.
   - subst tail. destruct ef.
     + assert (El : BBegin o :: put_ops xs ++ [BEnd; BCommit e g] = (BBegin o :: put_ops xs ++ [BEnd]) ++ [BCommit e g])
         by (cbn [app]; rewrite <- app_assoc; reflexivity).
@@ -618,76 +723,102 @@ Proof.
       rewrite El, bfinal_snoc. cbn [bstep fst set_bat base]. rewrite bfinal_snoc, commit_pending_nil. reflexivity.
 Qed.
 
-Theorem batch_equals_plain o xs ys ef e1 g1 e2 g2 :
-  map pd_doc xs = map pd_doc ys -> forallb doc_ok (map pd_doc xs) = true ->
-  bview (bfinal (batch_path o ys ef e2 g2)) = bview (bfinal (plain_path xs e1 g1)).
-Proof. intros HE Hok. rewrite plain_path_view by exact Hok. rewrite HE in *. apply batch_path_view. exact Hok. Qed.
+(* segments of puts, each followed by commit_skip_indexes *)
+Definition skip_body (segs : list (list pdoc)) : list bop := flat_map (fun xs => put_ops xs ++ [BSkip]) segs.
 
-(* ------------------------------------------------------------------ vector half outside the known class *)
-Definition NV (s : bst) : Prop := venabled (ix s) = false /\ vtoc (ix s) = None /\ vidx (ix s) = None.
-
-Lemma NV_commit_full s e : NV s -> NV (commit_full s e).
+Lemma skip_body_facts segs :
+  docs_of_ops (skip_body segs) = map pd_doc (concat segs) /\
+  (forall w r, scan w (skip_body segs ++ r) = scan (match segs with [] => w | _ => true end) r) /\
+  pending (base (bfinal (skip_body segs))) = [].
 Proof.
-  intros (H1 & H2 & H3). unfold commit_full, NV. cbn [ix].
-  destruct (delta_nonempty (pending (base s))); [unfold rebuild|unfold flush]; cbn [venabled vidx vtoc tdirty]; rewrite ?H1; cbn [build_vec_artifact].
-  - cbn. auto.
-  - match goal with |- context [if ?c then _ else _] => destruct c end; cbn; auto.
+  induction segs as [|xs segs IH] using rev_ind.
+  - repeat split; reflexivity.
+  - destruct IH as (I1 & I2 & I3). destruct (put_ops_facts xs) as (P1 & P3).
+    unfold skip_body in *. rewrite flat_map_app. cbn [flat_map]. rewrite app_nil_r.
+    split; [|split].
+    + rewrite concat_app, map_app, !docs_of_ops_app, I1, P3. cbn. rewrite !app_nil_r. reflexivity.
+    + intros w r. rewrite <- app_assoc, I2, <- app_assoc, (scan_plain _ _ _ P1). cbn [app scan].
+      destruct segs; cbn [app]; reflexivity.
+    + rewrite app_assoc, bfinal_snoc, skip_pending_nil. reflexivity.
 Qed.
 
-Lemma NV_step s op : NV s -> embedded_put op = false -> NV (fst (bstep s op)).
+Lemma skip_path_view segs e g : bview (bfinal (skip_path segs e g)) = spec_view (map pd_doc (concat segs)).
 Proof.
-  intros HN He. destruct op as [d auto g|o| |e g| |e g|e]; cbn [bstep fst].
-  - assert (H1 : NV (fst (put_append (grow s g) d))).
-    { destruct HN as (H1 & H2 & H3). destruct (grow_ix s g) as (GI & _). unfold put_append.
-      destruct (sstep (base (grow s g)) (OPut (d_uri d) (d_tag d) (d_nchunks d) 0 None)) as [b1 o]. cbn [fst]. unfold NV. cbn [ix].
-      cbn [embedded_put] in He. rewrite He, GI. cbn [andb]. destruct (d_instant d); cbn; auto. }
-    destruct (put_append (grow s g) d) as [s1 r]. cbn [fst] in *.
-    destruct auto; [destruct (suppress s)|]; cbn [fst]; auto using NV_commit_full.
-  - exact HN.
-  - exact HN.
-  - destruct (grow_ix (match pending (base s), dirty (base s) with
-                       | [], false => if tdirty (ix s) then commit_full s e else set_base s (bump (base s) e)
-                       | _, _ => commit_full s e end) g) as (GI & _). unfold NV. rewrite GI.
-    destruct (pending (base s)); [destruct (dirty (base s)); [|destruct (tdirty (ix s))]|]; try apply NV_commit_full; exact HN.
-  - unfold commit_skip. destruct HN as (H1 & H2 & H3).
-    destruct (pending (base s)); [destruct (dirty (base s))|]; unfold NV; cbn [ix venabled vtoc vidx]; rewrite ?H2; cbn; auto.
-  - destruct (grow_ix (finalize s e) g) as (GI & _). unfold NV. rewrite GI. destruct HN as (H1 & H2 & H3).
-    unfold finalize. cbn [ix]. unfold rebuild. rewrite H1. cbn [build_vec_artifact]. destruct (tdirty (ix s)); cbn; auto.
-  - set (s1 := if dirty (base s) then commit_full s e else set_base s (bump (base s) e)).
-    assert (N1 : NV s1) by (subst s1; destruct (dirty (base s)); [apply NV_commit_full|]; exact HN).
-    match goal with |- NV (match pending (base ?t) with [] => _ | _ => _ end) => set (s2 := t) end.
-    assert (N2 : NV s2) by (destruct N1 as (H1 & H2 & H3); subst s2; unfold NV; cbn [ix venabled vtoc vidx]; rewrite H2; cbn; auto).
-    destruct (pending (base s2)); [exact N2|apply NV_commit_full; exact N2].
+  destruct (skip_body_facts segs) as (S1 & S2 & S3). unfold skip_path. fold (skip_body segs).
+  assert (HDo : docs_of_ops (skip_body segs ++ [BFinalize e g]) = map pd_doc (concat segs)) by (rewrite docs_of_ops_app, S1; cbn; apply app_nil_r).
+  rewrite <- HDo. apply bulk_view.
+  - rewrite S2. destruct segs; reflexivity.
+  - rewrite bfinal_snoc. apply finalize_no_frame. rewrite S3. reflexivity.
 Qed.
 
-Lemma NV_run ops : forall s, NV s -> existsb embedded_put ops = false -> NV (fst (brun s ops)).
+(* the same inside begin_batch / end_batch (end before or after finalize_indexes) *)
+Lemma skip_in_batch_view o segs ef e g :
+  bview (bfinal (BBegin o :: skip_body segs ++ (if ef : bool then [BEnd; BFinalize e g] else [BFinalize e g; BEnd])))
+  = spec_view (map pd_doc (concat segs)).
 Proof.
-  induction ops as [|op ops IH]; intros s HN He; cbn [brun]; [exact HN|].
-  cbn [existsb] in He. apply orb_false_iff in He as [He1 He2].
-  pose proof (NV_step s op HN He1) as H1. destruct (bstep s op) as [s1 o]. cbn [fst] in H1.
-  specialize (IH s1 H1 He2). destruct (brun s1 ops) as [s2 os]. exact IH.
+  destruct (skip_body_facts segs) as (S1 & S2 & S3).
+  set (tail := if ef then [BEnd; BFinalize e g] else [BFinalize e g; BEnd]).
+  assert (HDo : docs_of_ops (BBegin o :: skip_body segs ++ tail) = map pd_doc (concat segs)).
+  { change (BBegin o :: skip_body segs ++ tail) with ([BBegin o] ++ skip_body segs ++ tail). rewrite !docs_of_ops_app, S1. subst tail. destruct ef; cbn; apply app_nil_r. }
+  rewrite <- HDo.
+  assert (HB : pending (base (bfinal (BBegin o :: skip_body segs))) = []).
+  { destruct segs as [|xs segs] using rev_ind; [reflexivity|].
+    unfold skip_body. rewrite flat_map_app. cbn [flat_map]. rewrite app_nil_r.
+    assert (El : BBegin o :: flat_map (fun xs0 => put_ops xs0 ++ [BSkip]) segs ++ put_ops xs ++ [BSkip]
+                 = (BBegin o :: flat_map (fun xs0 => put_ops xs0 ++ [BSkip]) segs ++ put_ops xs) ++ [BSkip])
+      by (cbn [app]; rewrite <- !app_assoc; reflexivity).
+    rewrite El, bfinal_snoc, skip_pending_nil. reflexivity. }
+  apply bulk_view.
+  - cbn [scan]. rewrite S2. subst tail. destruct segs; destruct ef; reflexivity.
+  - subst tail. destruct ef.
+    + assert (El : BBegin o :: skip_body segs ++ [BEnd; BFinalize e g] = ((BBegin o :: skip_body segs) ++ [BEnd]) ++ [BFinalize e g])
+        by (cbn [app]; rewrite <- !app_assoc; reflexivity).
+      rewrite El, bfinal_snoc. apply finalize_no_frame. rewrite bfinal_snoc. cbn [bstep fst set_bat base]. rewrite HB. reflexivity.
+    + assert (El : BBegin o :: skip_body segs ++ [BFinalize e g; BEnd] = ((BBegin o :: skip_body segs) ++ [BFinalize e g]) ++ [BEnd])
+        by (cbn [app]; rewrite <- !app_assoc; reflexivity).
+      rewrite El, bfinal_snoc. cbn [bstep fst set_bat base]. rewrite bfinal_snoc. apply finalize_no_frame. rewrite HB. reflexivity.
 Qed.
 
-Lemma no_embedded_infos ops : existsb embedded_put ops = false -> forallb op_ok ops = true ->
-  forallb noemb (ref_infos (docs_of_ops ops)) = true.
+(* ... and after close + reopen, whatever was pending at the close *)
+Theorem bulk_view_reopened ops e :
+  scan false ops = Some false -> bview (bfinal (ops ++ [BReopen e])) = spec_view (docs_of_ops ops).
 Proof.
-  induction ops as [|op ops IH]; intros He Hok; [reflexivity|].
-  cbn [existsb forallb] in He, Hok. apply orb_false_iff in He as [He1 He2]. apply andb_true_iff in Hok as [Ho1 Ho2].
-  change (docs_of_ops (op :: ops)) with (docs_of_op op ++ docs_of_ops ops). unfold ref_infos. rewrite flat_map_app, forallb_app.
-  fold (ref_infos (docs_of_ops ops)). rewrite (IH He2 Ho2), andb_true_r.
-  destruct op as [d a g| | | | | |]; try reflexivity. cbn [docs_of_op flat_map]. rewrite app_nil_r. apply doc_infos_noemb.
-  cbn [embedded_put op_ok] in He1, Ho1. unfold doc_ok in Ho1. destruct (d_emb d); [|reflexivity]. unfold incoming_dimension in He1. rewrite Ho1 in He1. discriminate.
+  intros Hs.
+  assert (HDo : docs_of_ops (ops ++ [BReopen e]) = docs_of_ops ops) by (rewrite docs_of_ops_app; cbn; apply app_nil_r).
+  rewrite <- HDo. apply bulk_view.
+  - clear HDo. revert Hs. generalize false at 1 3. induction ops as [|op ops IH]; intros w Hs.
+    + cbn in Hs. injection Hs as ->. reflexivity.
+    + cbn [app]. rewrite scan_cons in *. destruct (wnext w op); [apply IH; exact Hs|discriminate].
+  - rewrite bfinal_snoc, reopen_pending_nil. reflexivity.
 Qed.
 
-Theorem vector_outside_known ops :
-  known_class ops = false -> forallb op_ok ops = true ->
-  delta_nonempty (pending (base (bfinal ops))) = false ->
-  docs_of (vidx (ix (bfinal ops))) = vec_full (ref_infos (docs_of_ops ops)).
+Theorem three_paths_equal o xs ys segs ef e1 g1 e2 g2 e3 g3 :
+  map pd_doc ys = map pd_doc xs -> map pd_doc (concat segs) = map pd_doc xs ->
+  bview (bfinal (batch_path o ys ef e2 g2)) = bview (bfinal (plain_path xs e1 g1)) /\
+  bview (bfinal (skip_path segs e3 g3)) = bview (bfinal (plain_path xs e1 g1)).
+Proof. intros H1 H2. rewrite plain_path_view, batch_path_view, skip_path_view, H1, H2. split; reflexivity. Qed.
+
+Lemma path_scans o xs segs ef e g :
+  scan false (plain_path xs e g) = Some false /\ scan false (batch_path o xs ef e g) = Some false /\ scan false (skip_path segs e g) = Some false.
 Proof.
-  intros HK Hok HD. unfold known_class in HK. apply andb_false_iff in HK as [HK|HK].
-  - pose proof (noskip_view ops HK Hok HD) as H. unfold bview, spec_view in H. injection H as _ _ _ _ H. exact H.
-  - assert (HN : NV (bfinal ops)) by (apply NV_run; [repeat split|exact HK]).
-    destruct HN as (_ & _ & H3). rewrite H3. cbn [docs_of]. symmetry. apply vec_from_noemb. apply no_embedded_infos; assumption.
+  destruct (put_ops_facts xs) as (P1 & _). destruct (skip_body_facts segs) as (_ & S2 & _).
+  unfold plain_path, batch_path, skip_path. fold (skip_body segs). cbn [scan].
+  rewrite !(scan_plain _ _ _ P1), S2. repeat split; destruct ef; destruct segs; reflexivity.
+Qed.
+
+Theorem three_paths_equal_reopened o xs ys segs ef e1 g1 e2 g2 e3 g3 r1 r2 r3 :
+  map pd_doc ys = map pd_doc xs -> map pd_doc (concat segs) = map pd_doc xs ->
+  bview (bfinal (batch_path o ys ef e2 g2 ++ [BReopen r2])) = bview (bfinal (plain_path xs e1 g1 ++ [BReopen r1])) /\
+  bview (bfinal (skip_path segs e3 g3 ++ [BReopen r3])) = bview (bfinal (plain_path xs e1 g1 ++ [BReopen r1])).
+Proof.
+  intros H1 H2.
+  destruct (path_scans o xs segs ef e1 g1) as (Q1 & _ & _). destruct (path_scans o ys segs ef e2 g2) as (_ & Q2 & _).
+  destruct (path_scans o xs segs ef e3 g3) as (_ & _ & Q3).
+  rewrite !bulk_view_reopened by assumption.
+  destruct (put_ops_facts xs) as (_ & P3). destruct (put_ops_facts ys) as (_ & P3'). destruct (skip_body_facts segs) as (S1 & _ & _).
+  unfold plain_path, batch_path, skip_path. fold (skip_body segs).
+  change (BBegin o :: put_ops ys ++ (if ef then [BEnd; BCommit e2 g2] else [BCommit e2 g2; BEnd])) with ([BBegin o] ++ put_ops ys ++ (if ef then [BEnd; BCommit e2 g2] else [BCommit e2 g2; BEnd])).
+  rewrite !docs_of_ops_app, P3, P3', S1, H1, H2. destruct ef; cbn; rewrite ?app_nil_r; split; reflexivity.
 Qed.
 
 (* ------------------------------------------------------------------ ensure_wal_capacity, shift, adjust *)
@@ -702,8 +833,6 @@ Proof.
   destruct (next_pow2 m - w =? 0) eqn:E2; repeat split; try lia; intros H; try contradiction; try lia.
 Qed.
 
-(* every payload extent from data_start on moves by delta, every non-zero offset of the table moves by
-   delta: the frame whose payload sat at (off, len) finds the same owner at the adjusted offset *)
 Lemma shift_adjust_owner ext ds delta : forall off len,
   0 < off -> Forall (fun x => ds <= fst (fst x)) ext ->
   owner_at (shift_data ds delta ext) (if off =? 0 then 0 else off + delta) len = owner_at ext off len.
@@ -713,23 +842,4 @@ Proof.
   inversion HF as [|? ? H1 H2]; subst. cbn [fst] in H1. replace (ds <=? o) with true by lia.
   fold (shift_data ds delta ext). rewrite (IH H2).
   replace (o + delta =? off + delta) with (o =? off) by lia. reflexivity.
-Qed.
-
-Lemma reopen_pending_nil s e : pending (base (fst (bstep s (BReopen e)))) = [].
-Proof.
-  cbn [bstep fst].
-  match goal with |- context [match pending (base ?t) with [] => _ | _ => _ end] => destruct (pending (base t)) eqn:Ep end; [exact Ep|reflexivity].
-Qed.
-
-(* ... and the same after close + reopen, whatever was pending at the close *)
-Theorem noskip_view_reopened ops e :
-  existsb is_skip ops = false -> forallb op_ok ops = true ->
-  bview (bfinal (ops ++ [BReopen e])) = spec_view (docs_of_ops ops).
-Proof.
-  intros Hs Hok.
-  assert (HDo : docs_of_ops (ops ++ [BReopen e]) = docs_of_ops ops) by (rewrite docs_of_ops_app; cbn; apply app_nil_r).
-  rewrite <- HDo. apply noskip_view.
-  - rewrite existsb_app, Hs. reflexivity.
-  - rewrite forallb_app, Hok. reflexivity.
-  - rewrite bfinal_snoc, reopen_pending_nil. reflexivity.
 Qed.
